@@ -33,64 +33,71 @@ def _check(ctx, run, flags=(), label="default"):
     run.analysed(urun)
 
     # ---------------- R1 ----------------------------------------------------
-    def mt(f, n):
-        return n["k"] == "CallExpr" and prog.callee_name(f, n) == SETJMP
+    # Utest::run folded against scripted outcomes of the three phase runners: 1 = the phase completed, 0 = it left by
+    # longjmp (a failed check), F/S/U = it left by a CppUTestFailedException / a std::exception / any other exception
+    from cpv.ceval import Thrown
+    have_try = any(n["k"] == "CXXTryStmt" for n in urun.walk()) or any(n["k"] == "CXXTryStmt" for g in prog.functions.values() if g.file == urun.file and not g.cls and g.d.get("static") for n in g.walk())
+    OUT = (1, 0, "F", "S", "U") if have_try else (1, 0)
+    EXC = {"F": "CppUTestFailedException", "S": "std::exception", "U": "int"}
 
-    have_try = any(n["k"] == "CXXTryStmt" for n in urun.walk())
-    paths = enumerate_paths(urun, may_throw=mt if have_try else None)
-    for p in paths:
-        ev = []   # sequence of (phase, outcome)
-        for e in p.trace:
-            if isinstance(e, int):
-                n = urun.nodes[e]
-                if n["k"] == "CallExpr":
-                    ph = setjmp_phase(prog, urun, n)
-                    if ph:
-                        ev.append(ph)
-        throws = [k for k, v, b, c in p.decisions if k.startswith("throws@")]
-        threw = {}
-        for k in throws:
-            m = re.search(r"PlatformSpecificSetJmp\((\w+),", k)
-            if m:
-                threw[m.group(1)] = k
-        val = p.val()
-        desc = short(p.describe(urun), 160)
-        why = []
-        setup_done = "helperDoTestSetup" in ev and "helperDoTestSetup" not in threw
-        # value of the setup SetJmp: the variable assigned from it, or the call itself used as a condition
-        jr = None
-        for k, v in val.items():
-            if k == "jumpResult" or k.startswith("PlatformSpecificSetJmp(helperDoTestSetup"):
-                jr = v
-        body = "helperDoTestBody" in ev
-        if body and not (setup_done and jr is True):
-            why.append("body entered although setup did not complete with a non-zero result")
-        if setup_done and jr is True and not body:
-            why.append("setup completed but the body was not entered")
-        if ev.count("helperDoTestSetup") != 1:
-            why.append("setup entered %d times" % ev.count("helperDoTestSetup"))
-        if p.end == "return":
-            if ev.count("helperDoTestTeardown") != 1:
-                why.append("teardown entered %d times on a path that returns" % ev.count("helperDoTestTeardown"))
-            elif ev.index("helperDoTestTeardown") < max([ev.index(x) for x in ev if x != "helperDoTestTeardown"] + [-1]):
-                why.append("teardown is not the last phase")
-        elif p.end == "throw":
-            rt = [v for k, v in val.items() if k.endswith("isRethrowingExceptions()")]
-            if rt != [True] and not (len(rt) >= 1 and rt[-1] is True):
-                why.append("an exception escapes Utest::run without the rethrow option being set")
-        run.ob("R1", "phases on path [%s]%s" % (desc, sfx), urun.site, not why, witness={"phases": ev, "end": p.end}, what="; ".join(why))
+    def fold_run(script, rethrow):
+        log = []
+
+        def setjmp(fn, data):
+            ph = {"helperDoTestSetup": "setup", "helperDoTestBody": "body", "helperDoTestTeardown": "teardown"}.get(fn[1].split("::")[-1] if isinstance(fn, tuple) else None)
+            log.append(ph)
+            o = script.get(ph, 1)
+            if o in EXC:
+                raise Thrown("phase %s throws" % ph, exc=EXC[o])
+            return o
+        ev = Evaluator(prog, urun, env={"this": 4000}, calls={SETJMP: setjmp, RESTORE: lambda *a_: (log.append("restore"), 0)[1], "UtestShell::getCurrent": lambda *a_: 7,
+                                                               "UtestShell::isRethrowingExceptions": lambda *a_: rethrow, "UtestShell::addFailure": lambda *a_: (log.append("failure"), 0)[1]})
+        end, _ = ev.run_blocks(urun.entry, max_steps=2000)
+        return log, ("throw" if end == "throw" else "return")
+    nsc = 0
+    try:
+        for so, bo, to, rethrow in itertools.product(OUT, OUT, OUT, (0, 1)):
+            if so != 1 and bo != 1:
+                continue        # the body is not reached: one script per setup outcome is enough
+            nsc += 1
+            log, end = fold_run({"setup": so, "body": bo, "teardown": to}, rethrow)
+            phases = [x for x in log if x in ("setup", "body", "teardown")]
+            escaped = [ph for ph, o in (("setup", so), ("body", bo if so == 1 else 1)) if o in ("S", "U")]
+            why = []
+            if rethrow and escaped:
+                want, want_end = (["setup"] + (["body"] if so == 1 else [])), "throw"
+            else:
+                want = ["setup"] + (["body"] if so == 1 else []) + ["teardown"]
+                want_end = "throw" if (rethrow and to in ("S", "U")) else "return"
+            if phases != want:
+                if "body" in phases and so != 1:
+                    why.append("body entered although setup did not complete with a non-zero result")
+                elif so == 1 and "body" not in phases:
+                    why.append("setup completed but the body was not entered")
+                elif phases.count("teardown") != (1 if "teardown" in want else 0):
+                    why.append("teardown entered %d times" % phases.count("teardown"))
+                else:
+                    why.append("phases run: %s, expected %s" % (phases, want))
+            if end != want_end:
+                why.append("Utest::run ends with %s, expected %s%s" % (end, want_end, "" if want_end == "throw" else " (an exception escapes without the rethrow option being set)"))
+            run.ob("R1", "phases folded [setup=%s body=%s teardown=%s rethrow=%d]%s" % (so, bo if so == 1 else "-", to, rethrow, sfx), urun.site, not why, witness={"phases": phases, "end": end}, what="; ".join(why))
+            if have_try and not why:
+                thrown = [o for ph, o in (("setup", so), ("body", bo if so == 1 else 1), ("teardown", to if "teardown" in phases else 1)) if o in EXC]
+                w2 = []
+                if log.count("restore") != len(thrown):
+                    w2.append("%d exception(s) left a SetJmp'd phase, the jump buffer is restored %d times: an exception leaks one jump-buffer slot per occurrence (the 11th such test overruns the 10-slot table), or a slot too many is popped" % (len(thrown), log.count("restore")))
+                if log.count("failure") != len([o for o in thrown if o in ("S", "U")]):
+                    w2.append("%d unexpected exception(s), %d failure(s) recorded" % (len([o for o in thrown if o in ("S", "U")]), log.count("failure")))
+                run.ob("R2", "handlers folded [setup=%s body=%s teardown=%s rethrow=%d]: one RestoreJumpBuffer per exception caught, one failure per unexpected exception%s" % (so, bo if so == 1 else "-", to, rethrow, sfx), urun.site, not w2,
+                       witness={"log": log}, what="; ".join(w2))
+    except Unknown as u:
+        run.broke("C01.R1: Utest::run cannot be folded%s: %s" % (sfx, u))
     for h, meth in PHASES.items():
         f = prog.fn(h)
         run.analysed(f)
         cs = [(prog.callee_name(f, c) or "").split("::")[-1] for c in f.calls()]
         cs = [c for c in cs if c in PHASES.values()]
         run.ob("R1", "%s calls %s%s" % (h, meth, sfx), f.site, cs == [meth], witness=cs)
-    # the jump result variable is assigned from the setup SetJmp only
-    asg = [(l, render(urun, r)) for l, r, n in assignments(urun) if l == "jumpResult"]
-    if asg:
-        ok = all(r.startswith("PlatformSpecificSetJmp(helperDoTestSetup") for l, r in asg)
-        run.ob("R1", "the value tested before the body is the setup SetJmp result%s" % sfx, urun.site, ok, witness=asg)
-
     # ---------------- R2 ----------------------------------------------------
     def r2():
         impl = {}
@@ -194,8 +201,8 @@ def _check(ctx, run, flags=(), label="default"):
                     tries = [n["id"] for n in f.walk() if n["k"] == "CXXTryStmt"]
                     run.ob("R2", "try #%d handler catch(%s) restores the jump buffer exactly once%s" % (tries.index(t["id"]) + 1, h.get("caught"), sfx), f.site, ok, witness=wit,
                            what="" if ok else "an exception leaving a SetJmp'd phase leaks one jump-buffer slot per occurrence (the 11th such test overruns the 10-slot table)")
-        if have_try and nh < 6:
-            run.broke("only %d catch handlers guard SetJmp calls; 6 were confirmed by hand" % nh)
+        # (the per-handler rule above covers handlers whose try block calls SetJmp directly; when the phase runners were
+        # moved into helpers the folded scenarios of R1/R2 are what decides the handlers)
     guarded(run, r2)
 
     # ---------------- R3 ----------------------------------------------------
@@ -412,27 +419,29 @@ def _check(ctx, run, flags=(), label="default"):
                    isinstance(got, int) and ((got == 0) == want_zero), witness={"folded": got})
     pe = prog.fn("TestOutput::printTestsEnded")
     run.analysed(pe)
-    LABELS = [("getTestCount", " tests, "), ("getRunCount", " ran, "), ("getCheckCount", " checks, "), ("getIgnoredCount", " ignored, "), ("getFilteredOutCount", " filtered out, ")]
-    seen_ok = set()
-    for p in enumerate_paths(pe):
-        val = p.val()
-        isfv = val.get("isFailure")
-        seq = []
-        for c in path_calls(prog, pe, p):
-            if (prog.callee_name(pe, c) or "").split("::")[-1] == "print":
-                a = pe.args(c)[0]
-                s = pe.strip(a)
-                seq.append(s["v"] if s is not None and s["k"] == "StringLiteral" else "<" + render(pe, a) + ">")
-        txt = "".join(seq)
-        okk = ("OK (" in txt) == (isfv is False) and ("Errors (" in txt) == (isfv is True)
-        for g, lab in LABELS:
-            if txt.count("<result.%s()>%s" % (g, lab)) != 1:
+    LABELS = [("getTestCount", " tests, ", 101), ("getRunCount", " ran, ", 102), ("getCheckCount", " checks, ", 103), ("getIgnoredCount", " ignored, ", 104), ("getFilteredOutCount", " filtered out, ", 105)]
+    for isf, fc, col in itertools.product((0, 1), (0, 3), (0, 1)):
+        if not isf and fc:
+            continue
+        out = []
+        hooks = {"TestResult::isFailure": lambda *a_, isf=isf: isf, "TestResult::getFailureCount": lambda *a_, fc=fc: fc, "TestResult::getTotalExecutionTime": lambda *a_: 999,
+                 "TestOutput::print": lambda *a_: (out.append(a_[-1][1] if isinstance(a_[-1], tuple) and a_[-1][0] == "str" else "<%s>" % (a_[-1],)), 0)[1]}
+        for g, lab, v in LABELS:
+            hooks["TestResult::" + g] = (lambda *a_, v=v: v)
+        ev = Evaluator(prog, pe, env={"color_": col, "dotCount_": 5}, calls=hooks)
+        try:
+            ev.run_blocks(pe.entry, max_steps=600)
+        except Unknown as u:
+            run.broke("C01.R4: printTestsEnded cannot be folded: %s" % u)
+            break
+        txt = "".join(out)
+        okk = ("OK (" in txt) == (not isf) and ("Errors (" in txt) == bool(isf)
+        for g, lab, v in LABELS:
+            if txt.count("<%d>%s" % (v, lab)) != 1:
                 okk = False
-        key = (isfv, val.get("(0 < failureCount)"))
-        run.ob("R4", "summary reads OK iff !isFailure and prints every counter under its own label [%s]%s" % (short(p.describe(pe), 70), sfx), pe.site, okk, witness=short(txt, 300))
-    ini = {k: render(pe, v) for k, v in local_inits(pe).items()}
-    run.ob("R4", "the summary's verdict is result.isFailure() and its failure count result.getFailureCount()%s" % sfx, pe.site,
-           ini.get("isFailure") == "result.isFailure()" and ini.get("failureCount") == "result.getFailureCount()", witness=ini)
+        if isf and fc and "<%d> failures, " % fc not in txt:
+            okk = False
+        run.ob("R4", "summary folded [isFailure=%d failures=%d colour=%d]: reads OK iff !isFailure and prints every counter under its own label%s" % (isf, fc, col, sfx), pe.site, okk, witness=short(txt.replace("\033", "ESC"), 300))
 
     # ---------------- R5 ----------------------------------------------------
     ro = prog.fn("UtestShell::runOneTestInCurrentProcess")
